@@ -1,1 +1,2 @@
 import LzmaSpec.Sym
+import LzmaSpec.Events
